@@ -9,7 +9,7 @@ repository's current working tree, generate histories, run implementation and
 Lean driver on the same lines, compare, search/shrink on any break, write
 evidence.  Python standard library only.
 """
-import fcntl, hashlib, json, os, re, shutil, signal, subprocess, sys, time
+import bisect, fcntl, hashlib, json, os, re, shutil, signal, subprocess, sys, time
 
 VERIF = os.path.dirname(os.path.dirname(os.path.abspath(__file__)))
 REPO = os.environ.get("VERIF_REPO", "/repo")
@@ -301,9 +301,13 @@ def shrink(h, stream, case_ops, work, is_bad):
     head, body = case_ops[:1], case_ops[1:]
     if not fails(head + body):
         return case_ops
-    # truncate after the first failing line
+    # truncate after the first failing line (a failure that depends on map iteration order, a schedule or pooled
+    # state need not recur on every evaluation: then the case is kept as it was recorded)
     issues, _, _ = eval_case(h, stream, head + body, work)
-    first = min(x[0] for x in issues if is_bad(x))
+    bad_lines = [x[0] for x in issues if is_bad(x)]
+    if not bad_lines:
+        return case_ops
+    first = min(bad_lines)
     body = body[: max(0, first - 1)]
     if not fails(head + body):
         body = case_ops[1:]
@@ -326,7 +330,35 @@ def shrink(h, stream, case_ops, work, is_bad):
             if chunk == 1:
                 break
             n = min(len(body), n * 2)
-    return head + body
+    # second pass: shrink long argument lists INSIDE a line (the op word is kept); a line whose arity becomes
+    # wrong is answered `bad-op` by both sides and therefore does not "fail"
+    ops = head + body
+    budget = 150
+    for li in range(len(ops)):
+        toks = ops[li].split(" ")
+        if len(toks) <= 5:
+            continue
+        op, args = toks[:1], toks[1:]
+        n = 2
+        while len(args) >= 2 and budget > 0:
+            chunk = max(1, len(args) // n)
+            reduced = False
+            for i in range(0, len(args), chunk):
+                cand = args[:i] + args[i + chunk:]
+                budget -= 1
+                if fails(ops[:li] + [" ".join(op + cand)] + ops[li + 1:]):
+                    args = cand
+                    n = max(n - 1, 2)
+                    reduced = True
+                    break
+                if budget <= 0:
+                    break
+            if not reduced:
+                if chunk == 1:
+                    break
+                n = min(len(args), n * 2)
+        ops[li] = " ".join(op + args)
+    return ops
 
 
 # ---------------------------------------------------------------- main flow
@@ -593,7 +625,7 @@ def check(pid, P, tier, seed, work, replay, t0):
                 byc = {}
                 for it in issues:
                     ln = it[0] - 1
-                    ci = max(j for j, s in enumerate(starts) if s <= ln) if ln < len(ops_lines) else len(starts) - 1
+                    ci = max(bisect.bisect_right(starts, ln) - 1, 0) if ln < len(ops_lines) else len(starts) - 1
                     byc.setdefault(ci, []).append((it[0] - starts[ci],) + it[1:])
                 for ci, its in sorted(byc.items()):
                     end = starts[ci + 1] if ci + 1 < len(starts) else len(ops_lines)
